@@ -322,6 +322,9 @@ func docxTable(t *ltable, need map[string]bool) *Node {
 	}
 	for a := 0; a < t.R; a++ {
 		tr := E("w:tr")
+		if t.HdrRows[a] {
+			tr.Add(E("w:trPr", E("w:tblHeader"))) // "repeat as header row": says nothing about where the row is
+		}
 		for b := 0; b < t.C; b++ {
 			pos := [2]int{a, b}
 			if cell := t.Cells[pos]; cell != nil {
@@ -420,14 +423,30 @@ func writeDocx(r *hx.Rng, d *ldoc) docxPkg {
 	need := map[string]bool{"Normal": true}
 	body := E("w:body")
 	var bodyTables []*Node
-	for _, bl := range d.Blocks {
+	blockNodes := func(bl lblock) []*Node {
+		ns := docxMarks(bl.Marks)
 		if bl.P != nil {
-			body.Add(docxPara(bl.P, need))
-		} else {
-			tn := docxTable(bl.T, need)
-			bodyTables = append(bodyTables, tn)
-			body.Add(tn)
+			return append(ns, docxPara(bl.P, need))
 		}
+		tn := docxTable(bl.T, need)
+		if bl.Box == 0 {
+			bodyTables = append(bodyTables, tn) // the w:tbl children of the body itself
+		}
+		return append(ns, tn)
+	}
+	for i := 0; i < len(d.Blocks); {
+		bl := d.Blocks[i]
+		if bl.Box == 0 {
+			body.Add(blockNodes(bl)...)
+			i++
+			continue
+		}
+		// consecutive blocks of one container (structure.go)
+		var inner []*Node
+		for ; i < len(d.Blocks) && d.Blocks[i].Box == bl.Box; i++ {
+			inner = append(inner, blockNodes(d.Blocks[i])...)
+		}
+		body.Add(docxBox(bl.BoxKind, bl.Box, inner))
 	}
 	sect := E("w:sectPr")
 	if len(d.Header) > 0 {
